@@ -1,1 +1,17 @@
-fn main(){}
+//! `hvt`: tokio twins of the harnesses (humphrey built with feature `tokio`).
+
+mod areader;
+mod c02;
+
+use hvcommon::args::Args;
+
+fn main() {
+    let args = Args::from_env();
+    match args.cmd() {
+        "c02" => c02::main(&args),
+        other => {
+            eprintln!("unknown sub-command {:?}", other);
+            std::process::exit(2);
+        }
+    }
+}
